@@ -1408,17 +1408,10 @@ fn build_moov_box(
     let video_duration_media = video_tables.total_duration();
     let audio_duration_media = audio.map(|(_, tables)| tables.total_duration()).unwrap_or(0);
     let movie_duration_media = video_duration_media.max(audio_duration_media);
-    #[cfg(feature = "verif")]
-    crate::verif::cast(
-        "mp4.mvhd.duration",
-        (movie_duration_media as i128) * (MOVIE_TIMESCALE as i128) / (MEDIA_TIMESCALE as i128),
-        32,
-        false,
-    );
-    let video_duration_ms =
-        (movie_duration_media * MOVIE_TIMESCALE as u64 / MEDIA_TIMESCALE as u64) as u32;
+    let movie_duration_ms = (u128::from(movie_duration_media) * u128::from(MOVIE_TIMESCALE)
+        / u128::from(MEDIA_TIMESCALE)) as u64;
 
-    let mvhd_payload = build_mvhd_payload(video_duration_ms);
+    let mvhd_payload = build_mvhd_payload(movie_duration_ms);
     let mvhd_box = build_box(b"mvhd", &mvhd_payload);
     let trak_box = build_trak_box(video, video_tables, video_config, metadata);
 
@@ -2302,13 +2295,23 @@ fn build_mdhd_box_with_timescale_and_duration(
     language: Option<&str>,
 ) -> Vec<u8> {
     let mut payload = Vec::new();
-    payload.extend_from_slice(&0u32.to_be_bytes()); // version + flags
-    payload.extend_from_slice(&0u32.to_be_bytes()); // creation_time
-    payload.extend_from_slice(&0u32.to_be_bytes()); // modification_time
-    payload.extend_from_slice(&timescale.to_be_bytes());
-    #[cfg(feature = "verif")]
-    crate::verif::cast("mp4.mdhd.duration", duration as i128, 32, false);
-    payload.extend_from_slice(&(duration as u32).to_be_bytes()); // duration
+    if let Ok(duration) = u32::try_from(duration) {
+        payload.extend_from_slice(&0u32.to_be_bytes()); // version 0 + flags
+        payload.extend_from_slice(&0u32.to_be_bytes()); // creation_time
+        payload.extend_from_slice(&0u32.to_be_bytes()); // modification_time
+        payload.extend_from_slice(&timescale.to_be_bytes());
+        #[cfg(feature = "verif")]
+        crate::verif::cast("mp4.mdhd.duration", i128::from(duration), 32, false);
+        payload.extend_from_slice(&duration.to_be_bytes()); // duration
+    } else {
+        // More than 2^32 ticks (13.25 h at 90 kHz): version 1 carries a 64-bit duration.
+        // Truncating to 32 bits made long recordings declare a wrapped (tiny) duration.
+        payload.extend_from_slice(&0x0100_0000_u32.to_be_bytes()); // version 1 + flags
+        payload.extend_from_slice(&0u64.to_be_bytes()); // creation_time
+        payload.extend_from_slice(&0u64.to_be_bytes()); // modification_time
+        payload.extend_from_slice(&timescale.to_be_bytes());
+        payload.extend_from_slice(&duration.to_be_bytes()); // duration
+    }
     payload.extend_from_slice(&encode_language_code(language.unwrap_or("und"))); // language
     payload.extend_from_slice(&0u16.to_be_bytes()); // pre_defined
     build_box(b"mdhd", &payload)
@@ -2394,13 +2397,24 @@ fn build_ftyp_box() -> Vec<u8> {
     build_box(b"ftyp", &payload)
 }
 
-fn build_mvhd_payload(duration_ms: u32) -> Vec<u8> {
+fn build_mvhd_payload(duration_ms: u64) -> Vec<u8> {
     let mut payload = Vec::new();
-    payload.extend_from_slice(&0u32.to_be_bytes()); // version + flags
-    payload.extend_from_slice(&0u32.to_be_bytes()); // creation_time
-    payload.extend_from_slice(&0u32.to_be_bytes()); // modification_time
-    payload.extend_from_slice(&MOVIE_TIMESCALE.to_be_bytes()); // timescale (1000 = ms)
-    payload.extend_from_slice(&duration_ms.to_be_bytes()); // duration in ms
+    if let Ok(duration_ms) = u32::try_from(duration_ms) {
+        payload.extend_from_slice(&0u32.to_be_bytes()); // version 0 + flags
+        payload.extend_from_slice(&0u32.to_be_bytes()); // creation_time
+        payload.extend_from_slice(&0u32.to_be_bytes()); // modification_time
+        payload.extend_from_slice(&MOVIE_TIMESCALE.to_be_bytes()); // timescale (1000 = ms)
+        #[cfg(feature = "verif")]
+        crate::verif::cast("mp4.mvhd.duration", i128::from(duration_ms), 32, false);
+        payload.extend_from_slice(&duration_ms.to_be_bytes()); // duration in ms
+    } else {
+        // Longer than 2^32 ms (49.7 days): version 1 carries 64-bit times and duration.
+        payload.extend_from_slice(&0x0100_0000_u32.to_be_bytes()); // version 1 + flags
+        payload.extend_from_slice(&0u64.to_be_bytes()); // creation_time
+        payload.extend_from_slice(&0u64.to_be_bytes()); // modification_time
+        payload.extend_from_slice(&MOVIE_TIMESCALE.to_be_bytes()); // timescale (1000 = ms)
+        payload.extend_from_slice(&duration_ms.to_be_bytes()); // duration in ms
+    }
     payload.extend_from_slice(&0x0001_0000_u32.to_be_bytes()); // rate (1.0)
     payload.extend_from_slice(&0x0100u16.to_be_bytes()); // volume (1.0)
     payload.extend_from_slice(&0u16.to_be_bytes()); // reserved
